@@ -45,6 +45,8 @@ func runC08(c *Ctx) {
 	// every result of a batch is tagged with the id of its own item: each item's configs are loaded for that item
 	c.Rep.rule("R08.9", "def-use", "batch items get job configs loaded per item by loadJobConfigs (no configs value shared between items, no option applied in place)", 6)
 	c.ruleJobConfigsPerJob("R08.9", c.P.FuncByKey("loadJobConfigs"))
+	// ... and both the success and the failure path put that id on the Result they send to the shared stream
+	c.ruleOwnResponse("R08.10")
 }
 
 func (c *Ctx) ruleLastFinisher(rule string) {
